@@ -327,6 +327,8 @@ class ModelMixin3:
         if name.startswith('result:logging.getLogger') or name.startswith('logging.'):
             return [(NoneV() if name.startswith('result:') else ExtV('result:' + name), st)]
         # ElementTree
+        if name in ('xml.etree.ElementTree.fromstring', 'xml.etree.ElementTree.XML', 'xml.etree.ElementTree.parse'):
+            self.hook('parse', st, node, name=name, args=args, kwargs=kwargs)
         if name in ('xml.etree.ElementTree.fromstring', 'xml.etree.ElementTree.XML'):
             return self.parse_doc(args, st, node, from_file=False)
         if name == 'xml.etree.ElementTree.parse':
@@ -401,6 +403,18 @@ class ModelMixin3:
                 s3 = st.copy()
                 outs.append((self.exc('UnicodeDecodeError', s3, node, 'the file is not valid text in the chosen encoding'), s3))
             return outs
+        if name == 'contextlib.suppress':
+            names = []
+            for a in args:
+                if isinstance(a, ClsV):
+                    names.append(a.qual.split(':')[-1])
+                else:
+                    raise AnalysisError('contextlib.suppress with a non-class argument')
+            return [(ExtV('suppress:' + ','.join(names)), st)]
+        if name in ('collections.namedtuple', 'typing.NamedTuple'):
+            return [(ExtV('namedtuple-class'), st)]
+        if name in ('namedtuple-class', 'result:collections.namedtuple'):
+            return [(TupleV(tuple(args) + tuple(kwargs.values())), st)]       # a plain record: fields in call order
         if name in ('collections.Counter', 'Counter'):
             src = args[0] if args else None
             if src is None:
